@@ -73,6 +73,14 @@ def check_identities(item, acc):
                 if not close(got, lam):
                     bad("poisson_params", "poisson_params %r, definition %r" % (np.asarray(got).tolist(), lam.tolist()))
                     continue
+                # a SQUARE incidence matrix (as many hyperedges as nodes) that is not symmetric: orientation must not be guessed
+                if len(hyes) >= N:
+                    sel = hyes[:2] + hyes[-(N - 2):] if N > 2 else hyes[:N]
+                    Bs = incidence(N, sel)
+                    if Bs.shape[0] == Bs.shape[1] and not (Bs == Bs.T).all():
+                        got_s = m.poisson_params(Bs)
+                        if not close(got_s, [lam_def(u, w, e) for e in sel]):
+                            bad("poisson_params-square-incidence", "hyperedges %r (N = E = %d): %r, definition %r" % (sel, N, np.asarray(got_s).tolist(), [lam_def(u, w, e) for e in sel]))
                 for d in range(2, D + 1):
                     if not close(m.log_kappa(d), math.log(kap[d])):
                         bad("log_kappa", "log_kappa(%d)=%r, definition %r" % (d, m.log_kappa(d), math.log(kap[d])))
@@ -190,13 +198,23 @@ def check_fit(item, acc):
                     ucopy = None if uu is None else uu.copy()
                     wcopy = None if ww is None else ww.copy()
                     m.fit(h, n_iter=n_iter)
-                    return m, uu, ww, ucopy, wcopy
+                    if n_iter == 1 and (u0 is not None or w0 is not None):
+                        # a second call on the same object must still treat the supplied parameters as fixed
+                        keep_u, keep_w = (None if u0 is None else m.u.copy()), (None if w0 is None else m.w.copy())
+                        m2 = m
+                        m2.fit(h, n_iter=1)
+                        if (keep_u is not None and not np.array_equal(m2.u, keep_u)) or (keep_w is not None and not np.array_equal(m2.w, keep_w)):
+                            return m, uu, ww, ucopy, wcopy, "second-fit-changed-supplied"
+                    return m, uu, ww, ucopy, wcopy, None
 
                 try:
                     for script, res, ch, pruned in CH.explore(run):
                         acc.evaluations += 1
-                        m, uu, ww, ucopy, wcopy = res
+                        m, uu, ww, ucopy, wcopy, second = res
                         ws = dict(wit, u0=u0, w0=w0, n_iter=n_iter, script=list(script))
+                        if second:
+                            acc.violations.append(Violation("fit/supplied-parameter-changed-by-second-fit", "a second fit() on the same object changed a parameter supplied at construction; %r" % (ws,), ws, size + 2))
+                            continue
 
                         def bad(what, msg):
                             acc.violations.append(Violation("fit/%s" % what, "%s; %r" % (msg, ws), ws, size + n_iter))
@@ -253,6 +271,8 @@ def fit_items(tier):
     cands = [c for r in (2, 3) for c in itertools.combinations(nodes, r)]
     hs = [es for r in (2, 3) for es in itertools.combinations(cands, r)]
     hs = hs[:: (7 if tier == "quick" else 2)]
+    # as many hyperedges as nodes (square incidence matrix)
+    hs += [((0, 1), (0, 2), (0, 1, 2), (1, 2, 3)), ((0, 1), (1, 2), (2, 3), (0, 1, 3))]
     for es in hs:
         for weights in (None, tuple(1 + (i % 3) for i in range(len(es)))):
             for K in (1, 2):
